@@ -308,6 +308,10 @@ fn one<A: Sx>(sp: &Spec, v: &[u8], out: &mut Out) {
                 ("format!({})", format!("{}", seq)),
                 ("format!({}) of slice", format!("{}", &seq[..])),
                 ("format!({:>w$})", format!("{:>w$}", seq, w = v.len() / 2).trim_start().to_string()),
+                ("format!({:>12})", format!("{:>12}", seq).trim_start().to_string()),
+                ("format!({:<9})", format!("{:<9}", seq).trim_end().to_string()),
+                ("format!({:^7})", format!("{:^7}", &seq[..]).trim().to_string()),
+                ("format!({:_>5})", format!("{:_>5}", seq).trim_start_matches('_').to_string()),
             ];
             for (nm, t) in forms {
                 out.check(t == shown, || (format!("{n}/display/{nm}-differs-from-to_string"), format!("{nm} of parsed {:?} = {:?}, to_string() = {:?}", esc(v), t, shown)));
